@@ -2,7 +2,10 @@
    variant 0 = header.rs as first pinned, 1 = after the array-loop and u64 repairs,
    2 = after the nesting limit (MAX_SETTING_DEPTH) as well; the native stack is unbounded
    (`None`) in all runs.
-   prints the header parser mirror's result in the format of harness/src/bin/c12.rs *)
+   prints the header parser mirror's result in the format of harness/src/bin/c12.rs; after an `OK`
+   result, for every entry of the section (key order) the mirrors of YaccKind::try_from and
+   SerialisationFormat::try_from applied to its value:
+   ` # YK x<keyhex> OK <G|E|N|U|O>` | ` # YK x<keyhex> ERR <n> {<s> <e>}*`, ` # SF x<keyhex> OK <F|V>` | ` ... ERR ...` *)
 let bytes_of_hex (h : string) : int list =
   if h = "-" then [] else
   List.init (String.length h / 2) (fun i -> int_of_string ("0x" ^ String.sub h (2 * i) 2))
@@ -65,6 +68,29 @@ let kind = function
   | DuplicateEntry -> "Duplicate"
   | ConversionError -> "Conversion"
 
+let conv_locs (b : Buffer.t) (locs : (nat * nat) list) =
+  Buffer.add_string b (Printf.sprintf " ERR %d" (List.length locs));
+  List.iter (sp b) locs
+
+let yk_code = function
+  | YkGrmtools -> "G"
+  | YkEco -> "E"
+  | YkOriginal NoAction -> "N"
+  | YkOriginal UserAction -> "U"
+  | YkOriginal GenericParseTree -> "O"
+
+let conversions (b : Buffer.t) (hdr : header) =
+  List.iter (fun ((k, yk), sf) ->
+    Buffer.add_string b (" # YK " ^ xh k);
+    (match yk with
+     | CvOk y -> Buffer.add_string b (" OK " ^ yk_code y)
+     | CvErr locs -> conv_locs b locs);
+    Buffer.add_string b (" # SF " ^ xh k);
+    (match sf with
+     | CvOk FixedSizeInteger -> Buffer.add_string b " OK F"
+     | CvOk VariableSizedInteger -> Buffer.add_string b " OK V"
+     | CvErr locs -> conv_locs b locs)) (header_conversions hdr)
+
 let () =
   iter_lines (fun line ->
     match split_ws line with
@@ -81,6 +107,7 @@ let () =
            (match v with
             | Flag (f, l) -> Buffer.add_string b (if f then " F 1" else " F 0"); sp b l
             | SettingV s -> setting b s)) hdr;
+         conversions b hdr;
          Buffer.contents b
        | Done (HErrs es) ->
          let b = Buffer.create 128 in
